@@ -180,7 +180,11 @@ func (w *walker) bytes(b []byte, path string) {
 func (w *walker) walk(v reflect.Value, path string) {
 	t := v.Type()
 	if sharedType(t) {
-		w.line(path, "<shared:"+t.String()+">")
+		if v.IsNil() {
+			w.line(path, "nil")
+		} else {
+			w.line(path, "<shared:"+t.String()+">")
+		}
 		w.slot(v)
 		return
 	}
